@@ -21,7 +21,7 @@ from mtsa.cfg import CFG, _is_catch_all
 from mtsa.index import FunctionInfo, Repo, calls_in, dotted, norm, walk_no_nested
 from mtsa.report import AnalysisError, Ctx
 
-from .common import bound_argument, call_sites, cfg_of, is_call_to, is_none, method_call, returns_of
+from .common import bound_argument, call_sites, cfg_of, code_selector, is_call_to, is_none, method_call, returns_of
 
 LEVEL = "other"
 EXPLANATION = (
@@ -385,6 +385,7 @@ class Classifier:
 
 
 def rule_effects(ctx: Ctx, repo: Repo) -> None:
+    selector_fq = code_selector(repo, ctx).fq
     call = repo.method(repo.cls(M, "CallTracer"), "__call__")
     ps = call.positional_params()
     seeds = {call.fq: {ps[3]: T.VAL}}
@@ -405,7 +406,7 @@ def rule_effects(ctx: Ctx, repo: Repo) -> None:
     ctx.floor("R-C03.1", "functions of the tracer's call graph that handle program values", analysed, 7)
     ctx.floor("R-C03.1", "classified operations on program values", cl.ops, 20)
     # the type collection entry points must be among them
-    for need in ("monkeytype.typing.get_type", "monkeytype.typing.get_dict_type", "monkeytype.tracing._has_code", "monkeytype.tracing.get_func_in_mro", "monkeytype.tracing.get_func"):
+    for need in ("monkeytype.typing.get_type", "monkeytype.typing.get_dict_type", selector_fq, "monkeytype.tracing.get_func_in_mro", "monkeytype.tracing.get_func"):
         if need not in ta.fns:
             raise AnalysisError(f"R-C03.1: {need} is no longer reached by the taint analysis")
     ctx.note("tainted locals per function: " + "; ".join(f"{fq.split('.', 1)[1]}: {sorted(k for k, v in ta.locals[fq].items() if v >= T.CONT)}" for fq in sorted(ta.locals) if any(v >= T.CONT for v in ta.locals[fq].values())))
